@@ -103,19 +103,22 @@ Apply ==
     CASE Ev.ev = "reg" ->
            /\ impls' = AfterReg.impls /\ handlers' = AfterReg.handlers
            /\ ignore' = AfterReg.ignore /\ pointDeps' = AfterReg.pointDeps
-           /\ UNCHANGED <<phase, ev, levels>>
+           /\ ev' = NoEval
+           /\ UNCHANGED <<phase, levels>>
       [] OTHER -> UNCHANGED vars
 
 (* ---- diagnosis: failing clause + abstract features of the failing case ---- *)
-KindOf(j) == IF j \in DOMAIN impls THEN impls[j].k ELSE "none"
+(* declaration kind and, when the implementation was built with a spec_factory class, that class *)
+KindOfD(d) == IF d.f = "fn" THEN d.k ELSE d.k \o "/" \o d.f
+KindOf(j) == IF j \in DOMAIN impls THEN KindOfD(impls[j]) ELSE "none"
 (* level features: is the implementation attached to a re-declared (refined) point *)
 LvlTag(d) == IF d.lvl > 0 THEN "@refined" ELSE ""
 LvlOf(j)  == IF j \in DOMAIN impls /\ impls[j].lvl > 0 THEN "@refined" ELSE ""
 DiagReg ==
     IF ~DeclShapeOK(Ev.d) THEN "reg.shape"
-    ELSE IF ~DepChk THEN "Reg.pointDeps:" \o Ev.d.k \o LvlTag(Ev.d)
-    ELSE IF ~HdlChk THEN "Reg.handlers:" \o Ev.d.k \o LvlTag(Ev.d)
-    ELSE "Reg.ignore:" \o Ev.d.k \o LvlTag(Ev.d)
+    ELSE IF ~DepChk THEN "Reg.pointDeps:" \o KindOfD(Ev.d) \o LvlTag(Ev.d)
+    ELSE IF ~HdlChk THEN "Reg.handlers:" \o KindOfD(Ev.d) \o LvlTag(Ev.d)
+    ELSE "Reg.ignore:" \o KindOfD(Ev.d) \o LvlTag(Ev.d)
 
 DiagEval ==
     IF ~EvalShapeOK THEN "eval.shape"
@@ -148,7 +151,7 @@ DiagDag ==
 Diagnose ==
     CASE Ev.ev = "reg"  -> DiagReg
       [] Ev.ev = "noop" -> "Reg.unregistered-deep-subclass-changed-the-registries"
-      [] Ev.ev = "regfail" -> "Registration.raised:" \o Ev.d.k \o LvlTag(Ev.d)
+      [] Ev.ev = "regfail" -> "Registration.raised:" \o KindOfD(Ev.d) \o LvlTag(Ev.d)
       [] Ev.ev = "eval" -> DiagEval
       [] Ev.ev = "dag"  -> DiagDag
       [] OTHER -> "unknown-event"
